@@ -217,3 +217,12 @@ impl fmt::Display for ValType {
         )
     }
 }
+
+#[cfg(walrus_verif)]
+impl Type {
+    /// Verification hook: whether this is an internal function-entry type
+    /// (never emitted into the type section).
+    pub fn verif_is_for_function_entry(&self) -> bool {
+        self.is_for_function_entry
+    }
+}
